@@ -369,12 +369,20 @@ func Replay(raw json.RawMessage) hx.Outcome {
 		return hx.Outcome{Skipped: true, Note: "bad case"}
 	}
 	src := c.Src.Bytes()
-	if len(c.Toks) == 0 {
-		return hx.OK(false) // no token prediction (long source, used for the parser only)
+	var fail *hx.Outcome
+	unjudged := ""
+	if len(c.Toks) > 0 { // (no token prediction for long sources: parser only)
+		fail, unjudged = CheckLex(&c, src)
+		if fail != nil {
+			return *fail
+		}
 	}
-	fail, unjudged := CheckLex(&c, src)
-	if fail != nil {
-		return *fail
+	// (also the parser, so that `./check C03 --replay <file>` re-runs parser findings too; in a full run
+	// the parser is replayed separately under the name C03PARSE, where a lexer finding cannot mask it)
+	if !c.Rx {
+		if pf, _ := CheckParse(&c, src); pf != nil {
+			return *pf
+		}
 	}
 	gate(&c, src)
 	if unjudged != "" {
